@@ -9,6 +9,7 @@ import time
 
 from vk import ec, report, smt, render
 from contracts import c14_c as K
+from contracts import c14_ref as REF
 from props.common import SRC, parse_args
 
 PROP = "C14"
@@ -81,13 +82,14 @@ def monotone_lemma(eng):
     return obs
 
 
+WORKDIRS = {}
+
+
 def verify_variant(run, options, label, seen, only=None):
     global _ENG
     work = pathlib.Path(tempfile.mkdtemp(prefix="vk_c14_"))
-    try:
-        eng = build_engine(work, options)
-    finally:
-        shutil.rmtree(work, ignore_errors=True)
+    WORKDIRS[label] = work  # kept until the end of the run: the replay harness compiles against this rendering
+    eng = build_engine(work, options)
     todo = []
     for name in eng.contracts:
         if only and name not in only:
@@ -144,6 +146,39 @@ def main():
         obs += verify_variant(run, opts, label, seen)
     res = smt.solve_all(obs)
     run.add_results(res)
+    # failed obligations: replay the solver model / search next to it on the real rendered function (ASan+UBSan build)
+    wcache = {}
+    for r in res:
+        if r.ok:
+            continue
+        label, _, rest = r.ob.name.partition(":")
+        fn = r.ob.function
+        base = r.ob.name.split("/p")[0]
+        if any(f.obligation == base for f in run.failures):
+            continue
+        key = (label, fn)
+        if key not in wcache:
+            try:
+                wcache[key] = REF.witness(fn, WORKDIRS[label], r.model if r.status == "sat" else None)
+            except Exception as ex:  # the replay harness must never turn into a verdict
+                wcache[key] = {"harness_error": True, "why": f"{type(ex).__name__}: {ex}", "input": None}
+        w = wcache[key]
+        if w and not w.get("harness_error"):
+            run.fail(report.Failure(base, r.ob.kind, f"{r.ob.name} not discharged ({r.status}); real rendered function [{label}] on {w['input']}: {w['why']}",
+                                    {"witness": w, "variant": label, "model": r.model, "solver_output": r.raw[:2000], "smt2": r.ob.smt2()}, True))
+        elif r.status == "sat":
+            run.fail(report.Failure(base, r.ob.kind, f"{r.ob.name} not discharged (sat); model {dict(list(r.model.items())[:8])}",
+                                    {"model": r.model, "replay_harness": w, "solver_output": r.raw[:2000], "smt2": r.ob.smt2()}, False))
+    if args.tier == "thorough":
+        for label, work in WORKDIRS.items():
+            for fn in ("nunavutCopyBits", "nunavutGetBits", "nunavutSetUxx", "nunavutSetBit", "nunavutGetU8", "nunavutGetU32", "nunavutGetU64", "nunavutGetI8", "nunavutGetI32", "nunavutGetI64", "nunavutFloat16Pack", "nunavutFloat16Unpack"):
+                if "nofloat" in label and "Float" in fn:
+                    continue
+                w = REF.witness(fn, work, None)
+                run.add_bounded(f"[{label}] {fn}: native contract evaluation on the real function (ASan/UBSan)", "small offsets/lengths/sizes x 4 byte patterns, see contracts/c14_ref.py",
+                                getattr(REF.witness, "evaluations", 0), w is None, str(w or ""))
+    for work in WORKDIRS.values():
+        shutil.rmtree(work, ignore_errors=True)
     run.notes["option_variants"] = [v[0] for v in variants]
     run.trust("clang 14 (typed AST of the rendered header; -Wall -Wextra -Werror)", "z3 4.8.12 / z3 5.1.0 (bit-vectors, arrays-free write logs, floating point)",
               "E-C semantics (vk/ec.py): LP64 little-endian, two's complement, IEEE-754 RNE")
